@@ -8,9 +8,15 @@
                                     [guard] inside the closure.
    The algorithms are shared code on both sides, hence arbitrary parameters; trees are arbitrary (any cache contents, any
    stored layouts), so the statements cover relayouts after any history, not only fresh trees.  The bit-level agreement
-   of the real TaffyTree with a real user tree (layouts, rounding on/off) is the K/search part (harness/src/c17.rs). *)
+   of the real TaffyTree with a real user tree (layouts, rounding on/off) is the K/search part (harness/src/c17.rs).
+
+   Not in this file (audit, wave 5c): compute_root_layout and round_layout are not part of the two dispatchers, so nothing here
+   speaks about "rounded layouts" or "rounding on and off" -- the property's bit-identity of rounded layouts is checked on the
+   implementation only (rounding is a function of the unrounded tree: C13_final_is_function_of_unrounded).  `memo_doc` is
+   executed by no correspondence runner: it is tied to the K-checked `memo` only through C17_dispatch_equiv; the harness's
+   custom tree (harness/src/c17.rs) is compared with TaffyTree directly. *)
 From Coq Require Import List Bool Arith NArith.
-From TV Require Import Model.Engine Model.EngineToy Model.EngineDoc Proofs.EngineMemo Proofs.EngineDirty Proofs.EngineDoc.
+From TV Require Import Model.Engine Model.EngineToy Model.EngineDoc Proofs.EngineMemo Proofs.EngineDirty Proofs.EngineDoc Proofs.EngineToyProofs.
 Import ListNotations.
 
 (* If the user's dispatcher (Hk) maps display:none to compute_hidden_layout, childless nodes to compute_leaf_layout and
@@ -92,8 +98,13 @@ Qed.
 
 (* With an exact (full-input) key the memoised evaluation returns what the cache-free evaluation of the same shape, styles
    and measure data returns, keeps every cache entry valid and never changes the shape (= EngineMemo.memo_sound); on a
-   freshly built tree in particular (= memo_agrees_with_fresh). *)
-Theorem C17_memo_exact :
+   freshly built tree in particular (= memo_agrees_with_fresh).
+   PARTIAL (renamed in the audit, wave 5c).  The property says that with an exact memo the LAYOUTS equal the cache-free
+   evaluation; this theorem is about the LayoutOutput a call returns (and cache validity), not about the layouts stored in the
+   nodes.  For the stored layouts the statement is FALSE for algorithms that write layouts while answering a size query --
+   C01_layouts_refuted_for_scribbling_algorithms, known finding C01/computesize-scribble (taffy's block algorithm) -- and proved
+   for the others in C01_layouts_equal_fresh_for_nonscribbling_algorithms. *)
+Theorem C17_memo_exact_partial :
   forall (S In Out Lay : Type) (mode : In -> RunMode) (in_eqb : In -> In -> bool) (is_none : S -> bool)
          (hidden_out : Out) (zero_lay : Lay) (algo : S -> list S -> In -> Alg In Out Lay),
     (forall a b, in_eqb a b = true -> a = b) ->
@@ -115,8 +126,9 @@ Proof.
   - intros. apply Valid_fresh.
 Qed.
 
-(* ... and so does the documented tree: exact key + (Hg) + (Hk) => the user's tree returns the cache-free value *)
-Theorem C17_doc_exact :
+(* ... and so does the documented tree: exact key + (Hg) + (Hk) => the user's tree returns the cache-free value.
+   PARTIAL for the same reason: outputs, not stored layouts. *)
+Theorem C17_doc_exact_partial :
   forall (S In Out Lay : Type) (mode : In -> RunMode) (in_eqb : In -> In -> bool) (is_none : S -> bool)
          (hidden_out : Out) (zero_lay : Lay) (hidden_in : In)
          (calgo : S -> list S -> In -> Alg In Out Lay) (lalgo : S -> In -> Out)
@@ -140,9 +152,77 @@ Example C17_hypotheses_satisfiable :
   (forall s n, t_kind s n = kind_taffy TS t_is_none s n).
 Proof. exact toy_hyps. Qed.
 
+(* =====================================================================================================================
+   Computed instances (audit, wave 5c): evaluations that return Some on multi-node trees. *)
+
+(* C17_dispatch_equiv / _same_result: after a layout and set_style(display:none) on A (root > A > B > C), the documented tree
+   with the hidden-mode line and TaffyView return the same result on the NON-fresh tree, the tree changes, and B and C go from
+   the layouts 6 / 4 with filled caches to 0 with empty caches *)
+Definition trap_t2 : option ttree :=
+  match toy_taffy 8 trap_tree (PerformLayout, 5%N) with
+  | Some (_, t1) => Some (t_mutate t1 [0] (ESetStyle TS TIn TOut TLay (1%N, true)))
+  | None => None
+  end.
+Example C17_dispatch_example :
+  exists t2 r, trap_t2 = Some t2 /\
+    toy_guarded 8 t2 (PerformLayout, 5%N) = Some r /\ toy_taffy 8 t2 (PerformLayout, 5%N) = Some r /\
+    fst r = 0%N /\ snd r <> t2 /\
+    probe (Some t2) [0; 0] = Some (6%N, false) /\ probe (Some (snd r)) [0; 0] = Some (0%N, true) /\
+    probe (Some t2) [0; 0; 0] = Some (4%N, false) /\ probe (Some (snd r)) [0; 0; 0] = Some (0%N, true).
+Proof.
+  eexists. eexists. split; [vm_compute; reflexivity|]. split; [vm_compute; reflexivity|]. split; [vm_compute; reflexivity|].
+  vm_compute. repeat split; try reflexivity. discriminate.
+Qed.
+(* C17_literal_pattern_ok_without_display_none: its premises hold of the toy and of a 4-node tree without display:none node,
+   and both sides evaluate to the same Some (output 6) *)
+Example C17_literal_example :
+  (forall s st i, WFAlg TIn TOut TLay t_mode (t_algo' s st i)) /\
+  NoNone TS TIn TOut TLay t_is_none trap_tree /\
+  exists r,
+    memo_doc TS TIn TOut TLay t_mode t_in_eqb 0%N 0%N t_hidden_in t_algo' t_lalgo t_kind (fun _ => false) 8 trap_tree (PerformLayout, 5%N) = Some r /\
+    memo TS TIn TOut TLay t_mode t_in_eqb t_is_none 0%N 0%N (taffy_algo TS TIn TOut TLay t_algo' t_lalgo) 8 trap_tree (PerformLayout, 5%N) = Some r /\
+    fst r = 6%N.
+Proof.
+  split; [exact t_algo_WF|]. split.
+  - unfold trap_tree, tleaf. repeat (constructor; [reflexivity|]); repeat constructor.
+  - eexists. split; [vm_compute; reflexivity|]. split; vm_compute; reflexivity.
+Qed.
+(* C17_memo_exact_partial / C17_doc_exact_partial on a NON-fresh Valid tree: after a first pass the tree is Valid and differs
+   from the fresh one; a size query on it succeeds on both dispatchers with the cache-free value 34 *)
+Example C17_exact_example :
+  (forall a b, t_in_eqb a b = true -> a = b) /\
+  exists o1 t1, toy_taffy 8 trap_tree (PerformLayout, 5%N) = Some (o1, t1) /\
+    Valid TS TIn TOut TLay t_mode t_is_none 0%N (taffy_algo TS TIn TOut TLay t_algo t_lalgo) t1 /\ t1 <> trap_tree /\
+    exists o2 t2, toy_taffy 8 t1 (ComputeSize, 9%N) = Some (o2, t2) /\ toy_guarded 8 t1 (ComputeSize, 9%N) = Some (o2, t2) /\
+      plain TS TIn TOut TLay t_mode t_is_none 0%N (taffy_algo TS TIn TOut TLay t_algo t_lalgo) 8
+            (skel TS TIn TOut TLay t1) (ComputeSize, 9%N) = Some o2 /\ o2 = 34%N.
+Proof.
+  split; [exact t_in_eqb_eq|].
+  destruct (toy_taffy 8 trap_tree (PerformLayout, 5%N)) as [[o1 t1]|] eqn:E; [|vm_compute in E; discriminate].
+  exists o1, t1. split; [reflexivity|].
+  destruct (memo_sound TS TIn TOut TLay t_mode t_in_eqb t_is_none 0%N 0%N (taffy_algo TS TIn TOut TLay t_algo t_lalgo) t_in_eqb_eq
+              8 trap_tree (PerformLayout, 5%N) o1 t1 (Valid_fresh _ _ _ _ _ _ _ _ _
+                 (SNode TS (0%N, false) [SNode TS (1%N, false) [SNode TS (2%N, false) [SNode TS (3%N, false) []]]])) E) as (_ & HV & _).
+  split; [exact HV|]. vm_compute in E. injection E as <- <-. split; [discriminate|].
+  eexists. eexists. split; [vm_compute; reflexivity|]. split; [vm_compute; reflexivity|]. split; vm_compute; reflexivity.
+Qed.
+(* the trap of C17_hidden_dispatch_note in the scenario `vh c17 trap` runs on the real code: a FRESH tree with A hidden from the
+   start.  TaffyView and the guarded pattern zero B and C; the literal pattern zeroes B but leaves C with a non-zero layout
+   computed under a hidden-mode input (real code: C = 20 x 20, B's cache empty) *)
+Definition trap_tree_h : ttree :=
+  TN (0%N, false) (cempty TIn TOut) 0%N [TN (1%N, true) (cempty TIn TOut) 0%N [TN (2%N, false) (cempty TIn TOut) 0%N [tleaf 3]]].
+Definition fresh_run (ev : nat -> ttree -> TIn -> option (TOut * ttree)) : option ttree :=
+  match ev 8 trap_tree_h (PerformLayout, 5%N) with Some (_, t) => Some t | None => None end.
+Example C17_trap_fresh_scenario :
+  probe (fresh_run toy_taffy) [0; 0] = Some (0%N, true) /\ probe (fresh_run toy_taffy) [0; 0; 0] = Some (0%N, true) /\
+  fresh_run toy_guarded = fresh_run toy_taffy /\
+  probe (fresh_run toy_literal) [0; 0] = Some (0%N, true) /\
+  (exists l, probe (fresh_run toy_literal) [0; 0; 0] = Some (l, true) /\ l <> 0%N).
+Proof. vm_compute. repeat split; try reflexivity. eexists. split; [reflexivity|discriminate]. Qed.
+
 Print Assumptions C17_dispatch_equiv.
 Print Assumptions C17_dispatch_same_result.
 Print Assumptions C17_hidden_dispatch_note.
 Print Assumptions C17_literal_pattern_ok_without_display_none.
-Print Assumptions C17_memo_exact.
-Print Assumptions C17_doc_exact.
+Print Assumptions C17_memo_exact_partial.
+Print Assumptions C17_doc_exact_partial.
